@@ -12,10 +12,18 @@ package c06lib
 // nothing), receive != transmit field.  Observed: whether A was answered, the
 // client's record after A, B's request fields and reply datagram, the client's
 // record after B.
+//
+// Variant 2 (tag ip-port0), the REAL IP listener: A is a raw IPv4/UDP datagram
+// from one of the client addresses with UDP source port 0; the listener
+// handles it, and its reply to port 0 is refused by the kernel (EINVAL).  B is
+// an ordinary request from a socket on the same address (the IP listener's
+// client id is the source address, not the port).
 
 import (
 	"encoding/binary"
 	"errors"
+	"net"
+	"syscall"
 	"time"
 
 	"github.com/google/gopacket"
@@ -41,9 +49,9 @@ func (p *opaquePath) SerializeTo(b []byte) error {
 	return nil
 }
 func (p *opaquePath) DecodeFromBytes(b []byte) error { p.b = append([]byte(nil), b...); return nil }
-func (p *opaquePath) Reverse() (path.Path, error)   { return nil, errors.New("opaque") }
-func (p *opaquePath) Len() int                      { return len(p.b) }
-func (p *opaquePath) Type() path.Type               { return p.t }
+func (p *opaquePath) Reverse() (path.Path, error)    { return nil, errors.New("opaque") }
+func (p *opaquePath) Len() int                       { return len(p.b) }
+func (p *opaquePath) Type() path.Type                { return p.t }
 
 func (d *lsnDrv) scionPktPath(s lstepS, payload []byte, p path.Path) []byte {
 	var scn slayers.SCION
@@ -79,8 +87,33 @@ func fmtEntries(id string) string {
 	return lib.L(es...)
 }
 
+// sendPort0 sends payload as a UDP datagram with source port 0 from src to the IP listener (raw
+// socket: the kernel builds the IP header, the UDP header is ours; no UDP checksum).
+func (d *lsnDrv) sendPort0(src net.IP, payload []byte) error {
+	fd, err := syscall.Socket(syscall.AF_INET, syscall.SOCK_RAW, syscall.IPPROTO_UDP)
+	if err != nil {
+		return err
+	}
+	defer syscall.Close(fd)
+	var sa, da syscall.SockaddrInet4
+	copy(sa.Addr[:], src.To4())
+	copy(da.Addr[:], d.srv.To4())
+	if err := syscall.Bind(fd, &sa); err != nil {
+		return err
+	}
+	pkt := make([]byte, 8+len(payload))
+	binary.BigEndian.PutUint16(pkt[0:], 0)
+	binary.BigEndian.PutUint16(pkt[2:], lsnIPPort)
+	binary.BigEndian.PutUint16(pkt[4:], uint16(len(pkt)))
+	copy(pkt[8:], payload)
+	return syscall.Sendto(fd, pkt, 0, &da)
+}
+
 func (d *lsnDrv) runNoReply(variant, a, b, c, u int, z uint64) {
 	s := lstepS{lsn: 1, a: a, b: b, c: c, u: u}
+	if variant == 2 {
+		s = lstepS{lsn: 0, a: a, b: b}
+	}
 	args := lib.V(lib.I(int64(variant)), lib.I(int64(a)), lib.I(int64(b)), lib.I(int64(c)), lib.I(int64(u)), lib.U(z))
 	lsnEmit("CUR", "lsn.noreply", "", args, "")
 	server.VerifResetTSS()
@@ -90,22 +123,30 @@ func (d *lsnDrv) runNoReply(variant, a, b, c, u int, z uint64) {
 	d.drain(conn)
 
 	// A: a basic request on a path that cannot be reversed
-	var p path.Path
-	if variant == 0 {
-		raw := &scion.Raw{}
-		if err := raw.DecodeFromBytes(make([]byte, 4)); err != nil {
-			panic(err)
-		}
-		p = raw
-	} else {
-		p = &opaquePath{t: path.Type(200), b: []byte{1, 2, 3, 4, 5, 6, 7, 8}}
-	}
 	reqA := make([]byte, ntp.PacketLen)
 	reqA[0] = 4<<3 | 3
 	binary.BigEndian.PutUint64(reqA[40:], z)
-	if _, err := conn.WriteToUDP(d.scionPktPath(s, reqA, p), dst); err != nil {
-		lsnNote("c06: write failed: " + err.Error())
-		return
+	if variant == 2 {
+		// A: a basic request from UDP source port 0
+		if err := d.sendPort0(lsnOwnAddr(byte(60+a)), reqA); err != nil {
+			lsnNote("c06: lsn.noreply ip-port0 skipped: raw socket: " + err.Error())
+			return
+		}
+	} else {
+		var p path.Path
+		if variant == 0 {
+			raw := &scion.Raw{}
+			if err := raw.DecodeFromBytes(make([]byte, 4)); err != nil {
+				panic(err)
+			}
+			p = raw
+		} else {
+			p = &opaquePath{t: path.Type(200), b: []byte{1, 2, 3, 4, 5, 6, 7, 8}}
+		}
+		if _, err := conn.WriteToUDP(d.scionPktPath(s, reqA, p), dst); err != nil {
+			lsnNote("c06: write failed: " + err.Error())
+			return
+		}
 	}
 	// is A answered?  (B, sent afterwards through the same socket, is handled after A in any case)
 	gotA := false
@@ -146,10 +187,13 @@ func (d *lsnDrv) runNoReply(variant, a, b, c, u int, z uint64) {
 	time.Sleep(5 * time.Millisecond) // the listener records the kernel transmit stamp of B
 	entB := fmtEntries(id)
 	tags := "noreply"
-	if variant == 0 {
+	switch variant {
+	case 0:
 		tags += ",scion-seglen0"
-	} else {
+	case 1:
 		tags += ",unknown-pathtype"
+	default:
+		tags += ",ip-port0"
 	}
 	if !gotA && gotB {
 		tags += ",nt"
@@ -165,7 +209,11 @@ func (d *lsnDrv) runNoReply(variant, a, b, c, u int, z uint64) {
 func (d *lsnDrv) genNoReply(r *lib.Rng, n int) {
 	for i := 0; i < n && !d.lost; i++ {
 		z := uint64(r.U64())>>1 | 1
-		d.runNoReply(i%2, r.Intn(lsnNIA), r.Intn(lsnNHost), r.Intn(lsnNScionPort), r.Intn(lsnNUnderlay), z)
+		if i%3 == 2 {
+			d.runNoReply(2, r.Intn(lsnNAddr), r.Intn(lsnNPort), 0, 0, z)
+		} else {
+			d.runNoReply(i%3, r.Intn(lsnNIA), r.Intn(lsnNHost), r.Intn(lsnNScionPort), r.Intn(lsnNUnderlay), z)
+		}
 	}
 }
 
